@@ -10,21 +10,26 @@ namespace Rcgen.Theorems.C18
 open Rcgen Rcgen.Model
 
 /-- **failure happens before any file is created, and exactly for invalid options**: a name
-    that is neither an IP literal nor ASCII, a country that is not a PrintableString, or a key
-    algorithm the back end cannot generate -/
+    that is neither an IP literal nor ASCII, base names whose four files would not be four
+    different files, a country that is not a PrintableString, or a key algorithm the back end
+    cannot generate -/
 theorem cli_error_iff (aws : Bool) (o : CliOptions) :
     (∃ e, cliRun aws o = .error e) ↔
-      ((∃ e, classifySans o.sans = .error e) ∨ o.countryName.all printableByte = false ∨
-       cliKeyAlg aws o.alg = none) := by
+      ((∃ e, classifySans o.sans = .error e) ∨ namesCollide o.certFileName o.caFileName = true ∨
+       o.countryName.all printableByte = false ∨ cliKeyAlg aws o.alg = none) := by
   unfold cliRun
   cases hs : classifySans o.sans with
   | error e => simp
   | ok sans =>
     simp only [reduceCtorEq, exists_false, false_or]
+    cases hn : namesCollide o.certFileName o.caFileName with
+    | true => simp
+    | false =>
+    simp only [Bool.false_eq_true, if_false, false_or]
     cases hc : o.countryName.all printableByte with
     | false => simp
     | true =>
-      simp only [Bool.not_true, Bool.false_eq_true, if_false, false_or]
+      simp only [Bool.not_true, Bool.false_eq_true, if_false]
       cases hk : cliKeyAlg aws o.alg with
       | none => simp
       | some a => simp
@@ -42,7 +47,46 @@ theorem cli_ok_writes_four (aws : Bool) (o : CliOptions) (plan : CliPlan)
     · cases h
     · split at h
       · cases h
-      · injection h with h; subst h; rfl
+      · split at h
+        · cases h
+        · injection h with h; subst h; rfl
+
+/-- **the four files are four different files**: whenever the tool succeeds, no output
+    overwrites another (a base name that is the other one plus `.key`, or equal to it, is
+    refused) -/
+theorem cli_files_distinct (aws : Bool) (o : CliOptions) (plan : CliPlan)
+    (h : cliRun aws o = .ok plan) : plan.files.Nodup := by
+  have hf := cli_ok_writes_four aws o plan h
+  have hn : namesCollide o.certFileName o.caFileName = false := by
+    cases hc : namesCollide o.certFileName o.caFileName with
+    | false => rfl
+    | true =>
+      have : ∃ e, cliRun aws o = .error e := (cli_error_iff aws o).2 (Or.inr (Or.inl hc))
+      obtain ⟨e, he⟩ := this
+      rw [he] at h; cases h
+  unfold namesCollide at hn
+  simp only [Bool.or_eq_false_iff, beq_eq_false_iff_ne, ne_eq] at hn
+  obtain ⟨⟨h1, h2⟩, h3⟩ := hn
+  have key_pem : keyPemSuffix = keySuffix ++ pemSuffix := rfl
+  rw [hf]
+  simp only [List.nodup_cons, List.mem_cons, List.not_mem_nil, or_false, not_or, List.nodup_nil,
+    and_true, not_false_eq_true]
+  refine ⟨⟨?_, ?_, ?_⟩, ⟨?_, ?_⟩, ?_⟩
+  · -- cert.key.pem ≠ cert.pem
+    intro e; rw [key_pem, ← List.append_assoc] at e
+    have := List.append_cancel_right e
+    have hl := congrArg List.length this
+    simp [keySuffix] at hl
+  · intro e; exact h1 (List.append_cancel_right e)
+  · intro e; rw [key_pem, ← List.append_assoc] at e
+    exact h3 (List.append_cancel_right e).symm
+  · intro e; rw [key_pem, ← List.append_assoc] at e
+    exact h2 (List.append_cancel_right e)
+  · intro e; exact h1 (List.append_cancel_right e)
+  · intro e; rw [key_pem, ← List.append_assoc] at e
+    have := List.append_cancel_right e
+    have hl := congrArg List.length this
+    simp [keySuffix] at hl
 
 /-- the end-entity certificate carries exactly the given names in order — IP literals as IP
     addresses, everything else as DNS names —, the common name, the requested purposes, and
@@ -61,8 +105,10 @@ theorem cli_ee_params (aws : Bool) (o : CliOptions) (plan : CliPlan) (h : cliRun
     · cases h
     · split at h
       · cases h
-      · injection h with h; subst h
-        exact ⟨sans, hs, rfl, rfl, rfl, rfl, rfl, rfl⟩
+      · split at h
+        · cases h
+        · injection h with h; subst h
+          exact ⟨sans, hs, rfl, rfl, rfl, rfl, rfl, rfl⟩
 
 /-- the CA is a CA without path-length limit, with certificate-signing and CRL-signing usage,
     named by (country, organisation) -/
@@ -76,8 +122,10 @@ theorem cli_ca_params (aws : Bool) (o : CliOptions) (plan : CliPlan) (h : cliRun
     · cases h
     · split at h
       · cases h
-      · injection h with h; subst h
-        refine ⟨rfl, ?_, ?_⟩ <;> simp [cliCaParams]
+      · split at h
+        · cases h
+        · injection h with h; subst h
+          refine ⟨rfl, ?_, ?_⟩ <;> simp [cliCaParams]
 
 /-- each classified name is a well-formed address (4 or 16 octets) or an ASCII DNS name -/
 theorem classify_wellformed (s : Bytes) (t : SanType) (h : classifySan s = .ok t) :
@@ -120,5 +168,8 @@ def sampleOpts : CliOptions :=
 example : ∃ plan, cliRun false sampleOpts = .ok plan ∧
     plan.ee.sans = [.ip [1, 2, 3, 4], .dns [97, 46, 98]] := ⟨_, rfl, rfl⟩
 example : cliRun false { sampleOpts with alg := .rsa } = .error .keyGenerationUnavailable := rfl
+-- `--cert-file-name x.key --ca-file-name x`: `x.key.pem` would be written twice
+example : cliRun false { sampleOpts with certFileName := [120, 46, 107, 101, 121], caFileName := [120] } =
+    .error (.other "same-file") := rfl
 
 end Rcgen.Theorems.C18
